@@ -7,6 +7,7 @@ package main
 import (
 	"encoding/json"
 	"flag"
+	"strings"
 )
 
 type flow struct {
@@ -120,6 +121,9 @@ func flows() []flow {
 			func(g *flowGen) []SymStep { // the same cookie value presented again from another browser
 				return []SymStep{{Kind: "req", Req: &SymReq{Browser: "b2", Method: "GET", Route: "App", Arg: "00u0010"}}}
 			}},
+		{"remember-forged", func(g *flowGen) []SymStep {
+			return []SymStep{g.login("b2", "u1", pw("u1"), true), {Kind: "forgecookie", U: "b1", PW: &Desc{K: "lit", V: "u1"}}}
+		}, func(g *flowGen) SymStep { return app("b1") }, none},
 		{"app-session", func(g *flowGen) []SymStep { return []SymStep{g.login("b1", "u1", pw("u1"), false)} },
 			func(g *flowGen) SymStep { return app("b1") }, none},
 		{"totp-validate", func(g *flowGen) []SymStep { return []SymStep{g.login("b1", "u2", pw("u2"), false)} },
@@ -192,6 +196,7 @@ func init() {
 		shard := fs.Int("shard", 0, "shard index")
 		shards := fs.Int("shards", 1, "number of shards")
 		replay := fs.String("replay", "", "re-run scripts")
+		only := fs.String("only", "", "only flows whose name starts with this")
 		return func(enc *json.Encoder) error {
 			if *replay != "" {
 				return replayFile(*replay, enc)
@@ -203,6 +208,9 @@ func init() {
 					g := &flowGen{cfg}
 					for fi, f := range flows() {
 						if (fi % *shards) != *shard {
+							continue
+						}
+						if *only != "" && !strings.HasPrefix(f.name, *only) {
 							continue
 						}
 						base := append(append([]SymStep{}, seeds()...), f.prefix(g)...)
